@@ -385,6 +385,36 @@ def cases(which):
         add("compute_batch_gradients[complex wavefunction, no bases]", P_BIN + P_PH + DATA, bg_call("complex"), bg_spec("complex"))
         add("compute_batch_gradients[density matrix, no bases]", P_PUR + P_PURPH + DATA, bg_call("mixed"), bg_spec("mixed"))
 
+    if which in ("swap", "all"):
+        # ---- SWAP estimator (C09): every batch size and chain length, region = columns {0, 2} --------------------------------
+        from qucumber.observables import SWAP
+        REGION = [0, 2]
+
+        def pre_swap():
+            G.require_at_least(nv, 3)
+            G.require_at_least(B, 1)
+
+        def pwf3(W, b, c):
+            from qucumber.nn_states import PositiveWaveFunction
+            return _state(PositiveWaveFunction, rbm_am=binary(W, b, c))
+
+        def swap_spec(W, b, c, samples):
+            inA = lambda i: sum((G.delta(i, a) for a in REGION), G.ZERO)      # noqa: E731
+            prev = lambda t: ("sh", t, 1, B.name)                               # noqa: E731
+            s1 = lambda t, i: samples(t, i)                                     # noqa: E731
+            s2 = lambda t, i: samples(prev(t), i)                               # noqa: E731   the cyclic neighbour in the batch
+            s1s = lambda t, i: inA(i) * s2(t, i) + (1 - inA(i)) * s1(t, i)      # noqa: E731   replica 1 with region A taken from replica 2
+            s2s = lambda t, i: inA(i) * s1(t, i) + (1 - inA(i)) * s2(t, i)      # noqa: E731
+
+            def en_(row, t):
+                return -(G.sum_over(nv, lambda i: row(t, i) * b(i)) +
+                         G.sum_over(nh, lambda j: G.fn("softplus", c(j) + G.sum_over(nv, lambda i: W(j, i) * row(t, i)))))
+            return G.build((B,), lambda t: G.fn("exp", (-en_(s1s, t) - en_(s2s, t) + en_(s1, t) + en_(s2, t)) / 2))
+        add("SWAP.apply[positive wavefunction, region {0,2}] == psi(s1')psi(s2') / (psi(s1)psi(s2)) with the cyclic neighbour as second replica",
+            P_BIN + [("samples", (B, nv), "bits")],
+            lambda W, b, c, samples: SWAP(list(REGION)).apply(pwf3(W, b, c), samples), swap_spec)
+        out[-1].pre = pre_swap
+
     if which in ("statistics", "all"):
         # ---- one-pass statistics of a batch of observable values (C13), every batch length --------------------------------
         N2 = G.dim("N")
